@@ -588,6 +588,6 @@ MANIFEST = dict(
          'keeps the session; errno values map to the documented status codes folded to the negotiated version; the client resolves exactly the '
          'waiter of the reply id (ids across the 2^32 wrap), an unknown id fails all, an ill-typed reply is SFTPBadMessage for that caller only; '
          'SFTPAttrs/SFTPName round-trip for every carriable field combination in versions 3-6; attribute flag words are rejected exactly when they '
-         'contain a bit the version does not define (bit-vector proof over all 2^32 words).',
+         'contain a bit the version does not define (bit-vector proof over all 2^32 words); a reply to a cancelled caller is dropped without disturbing the others; non-UTF-8 owner/group names yield an error status.',
     note='Bodies longer than 8 bytes, more than 3 outstanding requests and real file operations are outside; the SFTPServer application object is a '
          'stub. The flag masks in REF_MASK are transcribed from the filexfer drafts and are part of the trusted base, as are CrossHair, z3 and vf/engine_b.py.')
